@@ -63,9 +63,22 @@ class Gen:
         r = self.rng.random()
         if r < 0.1:
             t = dict(kind="simpleContent", base=self.rng.choice(list(LEAVES)), attrs=self.attrs() or [dict(name=self.fresh("at"), type="string", required=False)])
+        elif r < 0.18:
+            # attribute-only type (no content particle)
+            t = dict(kind="complex", content=None, attrs=self.attrs() or [dict(name=self.fresh("at"), type="string", required=self.rng.random() < 0.5)], base=None)
+        elif r < 0.26:
+            # all-optional content and attributes: instances may be childless
+            t = dict(kind="complex", content=dict(k="seq", items=[self.leaf_elem(occ=(0, 1)) for _ in range(self.rng.choice([1, 2]))], min=1, max=1),
+                     attrs=self.attrs() or [dict(name=self.fresh("at"), type="string", required=False)], base=None)
         else:
             t = dict(kind="complex", content=self.top_particle(depth), attrs=self.attrs(), base=None)
         self.types[name] = t
+        if self.profile in ("core", "xsitype") and t["kind"] == "complex" and t["content"] and t["content"]["k"] == "seq" and self.rng.random() < 0.3:
+            # a type derived by extension: usable through xsi:type wherever `name` is declared
+            dname = name + "D"
+            self.types[dname] = dict(kind="complex", content=dict(k="seq", items=[self.leaf_elem(occ=(1, 1))], min=1, max=1),
+                                     attrs=[dict(name=self.fresh("at"), type="int", required=False)], base=name)
+            t["derived"] = dname
         return name
 
     def elem(self, depth, occ=None):
@@ -107,7 +120,13 @@ class Gen:
                     items.append(dict(k="seq", items=[first] + [self.elem(0) for _ in range(self.rng.choice([0, 1]))], min=mn, max=mx))
             else:
                 items.append(self.elem(depth))
+        if self.profile == "wide" and depth >= 0 and self.rng.random() < 0.35:
+            gname = self.fresh("G")
+            self.groups[gname] = dict(k="seq", items=[self.leaf_elem(occ=self.rng.choice([(1, 1), (0, 1)])) for _ in range(self.rng.choice([1, 2]))], min=1, max=1)
+            mn, mx = self.rng.choice([(1, 1), (0, None), (1, None), (0, 3)])
+            items.append(dict(k="group", ref=gname, min=mn, max=mx))
         if top and self.profile == "wide" and self.rng.random() < 0.3:
+            items.append(self.leaf_elem(occ=(1, 1)))      # a required element before the wildcard keeps the model deterministic
             items.append(dict(k="any", min=0, max=self.rng.choice([1, None])))
         return dict(k="seq", items=items, min=1, max=1)
 
@@ -175,6 +194,8 @@ class Inst:
         self.s = schema
         self.rng = rng
         self.mode = mode
+        self.used_xsitype = False
+        self.prefix = rng.choice([None, "q"])
 
     def qn(self, local):
         return "{%s}%s" % (TNS, local) if self.s["qualified"] else local
@@ -200,6 +221,14 @@ class Inst:
             else:
                 e.text = self.rng.choice(LEAVES[ty])
             return e
+        t = self.s["types"][ty]
+        if t.get("derived") and self.rng.random() < 0.4:
+            # substitute the derived type through xsi:type
+            e2 = etree.Element(e.tag)
+            e2.set("{%s}type" % XSI, ("%s:%s" % (self.prefix, t["derived"])) if self.prefix else t["derived"])
+            self.fill(e2, t["derived"])
+            self.used_xsitype = True
+            return e2
         self.fill(e, ty)
         return e
 
@@ -253,9 +282,31 @@ class Inst:
 
     def document(self):
         name, tname = self.s["root"]
-        root = etree.Element("{%s}%s" % (TNS, name), nsmap={None: TNS} if self.rng.random() < 0.5 else {"q": TNS})
+        root = etree.Element("{%s}%s" % (TNS, name), nsmap={self.prefix: TNS})
         self.fill(root, tname)
         return root
+
+
+def nested_choice_schema(depth, repeat_inner=False):
+    """choice(x1 | choice(x2 | choice(... )))  depth levels; the family on which re-parsing would be exponential"""
+    def lvl(i):
+        if i == depth:
+            return dict(k="elem", name="x%d" % i, type="string", min=1, max=1, nillable=False)
+        inner = lvl(i + 1)
+        return dict(k="choice", items=[dict(k="elem", name="x%d" % i, type="string", min=1, max=1, nillable=False), inner], min=1,
+                    max=(None if repeat_inner and i > 0 else 1))
+    types = {"T1": dict(kind="complex", content=lvl(0), attrs=[], base=None)}
+    return dict(qualified=True, attr_qualified=False, types=types, groups={}, root=("root", "T1"))
+
+
+def group_schema(min_, max_):
+    """sequence(group g{min,max}, tail) with g = (a, b): the family of the group progress check"""
+    g = dict(k="seq", items=[dict(k="elem", name="a", type="string", min=1, max=1, nillable=False),
+                             dict(k="elem", name="b", type="string", min=0, max=1, nillable=False)], min=1, max=1)
+    content = dict(k="seq", items=[dict(k="group", ref="g", min=min_, max=max_),
+                                   dict(k="elem", name="tail", type="string", min=0, max=1, nillable=False)], min=1, max=1)
+    return dict(qualified=True, attr_qualified=False, types={"T1": dict(kind="complex", content=content, attrs=[], base=None)},
+                groups={"g": g}, root=("root", "T1"))
 
 
 def validator(xsd_text):
